@@ -10,7 +10,8 @@ was copied, which text was written or appended):
   MERGE-<fmt>       (clean reference, localization) pairs rendered as real files in a
                     temporary directory: record-level edits (drop, obsolete, re-value,
                     reorder), junk injection, check-breaking values; a share with raw
-                    character mutations on top
+                    character mutations on top; a third of the cases wired like
+                    compareProjects: ContentComparer(quiet) + Observer(quiet), quiet 0..4
   MERGE-files       add() / remove() / unknown file types
   MERGE-inc-sequence 2-4 consecutive .inc comparisons in this process where an earlier file
                     leaves `#filter emptyLines` switched on; each pair's expected staging is
@@ -410,13 +411,17 @@ def mutate_text(rng, fmt, text):
 class Collector:
     """an observer written here: records what the comparison reported"""
 
-    def __init__(self):
+    def __init__(self, verdict="error"):
         self.events = []
         self.stats = {}
+        # "ignore" next to a real Observer: ObserverList.notify discards it, the other
+        # observers' verdict decides (all-"ignore" cannot happen, a real Observer without a
+        # filter never says "ignore")
+        self.verdict = verdict
 
     def notify(self, category, file, data):
         self.events.append((category, data))
-        return "error"
+        return self.verdict
 
     def updateStats(self, file, stats):
         for k, v in stats.items():
@@ -621,8 +626,11 @@ class Result:
     pass
 
 
-def run_pair(env, fmt, ref_bytes, l10n_bytes, op="compare"):
-    """one compare()/add()/remove() on fresh files; everything the oracle and the model need"""
+def run_pair(env, fmt, ref_bytes, l10n_bytes, op="compare", quiet_level=None):
+    """one compare()/add()/remove() on fresh files; everything the oracle and the model need.
+    quiet_level None: the comparer has the recording Collector as its only observer;
+    0..4: wired as compareProjects does it - ContentComparer(quiet) with Observer(quiet=quiet)
+    appended - plus the Collector as a passive listener whose verdict never decides"""
     from compare_locales.paths import File
     name = FILE[fmt]
     refp, l10np, mergep = env.path("ref", name), env.path("l10n", name), env.merge_path(name)
@@ -638,9 +646,16 @@ def run_pair(env, fmt, ref_bytes, l10n_bytes, op="compare"):
     r.ref_bytes, r.l10n_bytes = ref_bytes, l10n_bytes
     r.refp, r.l10np, r.mergep = refp, l10np, mergep
     before = env.snapshot()
-    cc = env.Recording()
-    col = Collector()
+    if quiet_level is None:
+        cc = env.Recording()
+        col = Collector()
+    else:
+        from compare_locales.compare.observer import Observer
+        cc = env.Recording(quiet_level)
+        cc.observers.append(Observer(quiet=quiet_level))
+        col = Collector(verdict="ignore")
     cc.observers.append(col)
+    r.quiet_level = quiet_level
     r.exc = None
     with quiet():
         try:
@@ -908,8 +923,8 @@ def describe(case):
     return case
 
 
-def make_case(fmt, ref_bytes, l10n_bytes, stream, op="compare"):
-    return {"format": fmt, "op": op, "stream": stream,
+def make_case(fmt, ref_bytes, l10n_bytes, stream, op="compare", quiet_level=None):
+    return {"format": fmt, "op": op, "stream": stream, "quiet": quiet_level,
             "ref": ref_bytes.decode("utf-8", "replace"),
             "l10n": None if l10n_bytes is None else l10n_bytes.decode("utf-8", "backslashreplace"),
             "l10n_hex": None if l10n_bytes is None else l10n_bytes.hex()}
@@ -985,10 +1000,15 @@ def suite_format(chk, env, model, fmt, n):
             structured += 1
         if i % 25 == 0:
             check_reference(fmt, env, ref_bytes)
-        case = make_case(fmt, ref_bytes, l10n_bytes, "mutated" if do_mut else "structured")
+        # a third of the cases with real observers at a quiet level (the staged file does not
+        # depend on how much is reported)
+        ql = rng.randint(0, 4) if rng.random() < 0.35 else None
+        case = make_case(fmt, ref_bytes, l10n_bytes, "mutated" if do_mut else "structured",
+                         quiet_level=ql)
         chk.hist("stream", case["stream"] + ":" + fmt)
-        r = run_pair(env, fmt, ref_bytes, l10n_bytes)
-        chk.count((fmt, ref_bytes, l10n_bytes))
+        chk.hist("quiet", ql)
+        r = run_pair(env, fmt, ref_bytes, l10n_bytes, quiet_level=ql)
+        chk.count((fmt, ref_bytes, l10n_bytes, ql))
         report(chk, env, case, r, expect)
         splice_oracle(chk, case, r, spl)
         call = r.calls[-1] if r.calls else None
@@ -1548,7 +1568,8 @@ def replay(chk, path):
                     rc |= bool(fails)
                 continue
             l10n = None if c.get("l10n_hex") is None else bytes.fromhex(c["l10n_hex"])
-            r = run_pair(env, c["format"], c["ref"].encode("utf-8"), l10n, c.get("op", "compare"))
+            r = run_pair(env, c["format"], c["ref"].encode("utf-8"), l10n, c.get("op", "compare"),
+                         quiet_level=c.get("quiet"))
             print("case", json.dumps(c, ensure_ascii=False)[:1500])
             print("staged", r.merged, "raised", r.exc)
             if c.get("op", "compare") == "compare":
